@@ -77,11 +77,25 @@ func runC20(e *core.Env, n int) {
 			if sc.Kind == ClientStream {
 				sc.Handler = append(sc.Handler, Op{Op: "send", Msg: genMsg(r, tag+"/resp", false)})
 			}
+			if sc.Kind == Bidi && release != "finish" && r.Intn(3) == 0 {
+				// the handler is parked inside a blocked SendMsg (the client is not receiving) instead of at a gate
+				sc.Handler = sc.Handler[:k]
+				for j := 0; j < 3; j++ {
+					sc.Handler = append(sc.Handler, Op{Op: "send", Msg: genMsg(r, fmt.Sprintf("%s/h%d", tag, j), false)})
+				}
+				if release == "recv" {
+					sc.Handler = append(sc.Handler, Op{Op: "recvall"})
+				}
+			}
 			sc.Receiver = []Op{{Op: "gate", Gate: "client-may-recv"}, {Op: "recvall"}}
 			if release == "finish" && r.Intn(2) == 0 {
 				// the peer finishes with several final frames while the client is not receiving at all
+				// (the handler sends no message here, so nothing depends on how much the stream buffers)
 				sc.Receiver = []Op{{Op: "recvall"}}
 				sc.RecvAfterSend = true
+				if n := len(sc.Handler); n > 0 && sc.Handler[n-1].Op == "send" {
+					sc.Handler = sc.Handler[:n-1]
+				}
 				sc.Handler = append(sc.Handler, Op{Op: "settrl", MD: metadata.MD{"final": {"trailer"}}})
 				sc.Ret = Ret{How: "status", Code: 10, Msg: "handler gave up"}
 			}
